@@ -98,10 +98,19 @@ def gen_switch(rng, idx, ncases):
     L.append('\tswitch (v) {')
     dpos = rng.randrange(len(keys) + 1)
     exp = {}
+    nested = set(rng.sample(range(len(keys)), min(len(keys), rng.choice([0, 0, 1, 2, 3])))) if keys else set()
     for i, k in enumerate(keys):
         if has_default and i == dpos:
             L.append('\tdefault: r += 1000003; break;')
-        L.append('\tcase %s: r += %d; break;' % (spell(rng, k, pbits, psigned), i + 1))
+        if i in nested:
+            # a switch inside a case body: its cases, default, break target and controlling type are its own; the outer
+            # switch goes on after it (constants are taken from the outer set on purpose)
+            ity = rng.choice(['int', 'long long', 'unsigned char', 'unsigned', 'short'])
+            ik = [x for x in rng.sample(keys, min(len(keys), 4)) if -128 <= x <= 127] + [rng.randrange(0, 6), 7]
+            body = ' '.join('case %d: r += %d; %s' % (x, 5000 + 17 * j, rng.choice(['break;', 'break;', ''])) for j, x in enumerate(sorted(set(ik))))
+            L.append('\tcase %s: r += %d; switch ((%s)(v & 7)) { %s %s } r += 3; break;' % (spell(rng, k, pbits, psigned), i + 1, ity, body, rng.choice(['default: r += 900; break;', '', 'default: ;'])))
+        else:
+            L.append('\tcase %s: r += %d; break;' % (spell(rng, k, pbits, psigned), i + 1))
         exp[k] = i + 1
     if has_default and dpos >= len(keys):
         L.append('\tdefault: r += 1000003; break;')
